@@ -160,8 +160,11 @@ func jsonLeafMutations(doc []byte) (names []string, docs [][]byte) {
 			return x
 		}
 		c = set(c, p)
-		b, err := json.Marshal(c)
-		if err != nil || bytes.Equal(b, doc) {
+		// (keys in the order of the original document: kinds that insist on the canonical serialisation of
+		// their payload - OLVM - would otherwise refuse every mutant for its key order alone and the operator
+		// would never reach the check it is aimed at)
+		b := orderedMarshal(c, doc)
+		if b == nil || bytes.Equal(b, doc) {
 			continue
 		}
 		name := "data"
@@ -175,6 +178,90 @@ func jsonLeafMutations(doc []byte) (names []string, docs [][]byte) {
 		docs = append(docs, b)
 	}
 	return
+}
+
+// orderedMarshal serialises v with the object keys in the order in which `like` has them (recursively); keys
+// that `like` does not have follow in sorted order; shapes that differ fall back to encoding/json.
+func orderedMarshal(v interface{}, like []byte) []byte {
+	switch t := v.(type) {
+	case map[string]interface{}:
+		var order []string
+		sub := map[string]json.RawMessage{}
+		dec := json.NewDecoder(bytes.NewReader(like))
+		if tok, err := dec.Token(); err == nil && tok == json.Delim('{') {
+			for dec.More() {
+				kt, err := dec.Token()
+				if err != nil {
+					break
+				}
+				k, _ := kt.(string)
+				var raw json.RawMessage
+				if dec.Decode(&raw) != nil {
+					break
+				}
+				if _, dup := sub[k]; !dup {
+					order = append(order, k)
+				}
+				sub[k] = raw
+			}
+		}
+		var rest []string
+		for k := range t {
+			if _, ok := sub[k]; !ok {
+				rest = append(rest, k)
+			}
+		}
+		sort.Strings(rest)
+		var b bytes.Buffer
+		b.WriteByte('{')
+		n := 0
+		for _, k := range append(order, rest...) {
+			val, ok := t[k]
+			if !ok {
+				continue
+			}
+			if n > 0 {
+				b.WriteByte(',')
+			}
+			n++
+			kb, _ := json.Marshal(k)
+			b.Write(kb)
+			b.WriteByte(':')
+			vb := orderedMarshal(val, sub[k])
+			if vb == nil {
+				return nil
+			}
+			b.Write(vb)
+		}
+		b.WriteByte('}')
+		return b.Bytes()
+	case []interface{}:
+		var elems []json.RawMessage
+		json.Unmarshal(like, &elems)
+		var b bytes.Buffer
+		b.WriteByte('[')
+		for i, e := range t {
+			if i > 0 {
+				b.WriteByte(',')
+			}
+			var l []byte
+			if i < len(elems) {
+				l = elems[i]
+			}
+			vb := orderedMarshal(e, l)
+			if vb == nil {
+				return nil
+			}
+			b.Write(vb)
+		}
+		b.WriteByte(']')
+		return b.Bytes()
+	}
+	b, err := json.Marshal(v)
+	if err != nil {
+		return nil
+	}
+	return b
 }
 
 func isNullAt(v interface{}, p []interface{}) bool {
